@@ -141,6 +141,7 @@ impl Channel {
 #[verifier::external_body] pub struct VxAddress { _p: u8 }
 #[verifier::external_body] pub struct VxHTLCInfo { _p: u8 }
 //@type vls-core/src/tx/tx.rs :: CommitmentInfo
+//@const vls-core/src/util/transaction_utils.rs :: MIN_CHAN_DUST_LIMIT_SATOSHIS
 
 } // verus!
 fn main() {}
